@@ -127,7 +127,8 @@ def _rtimer(rnd):
 
 
 def _rname(rnd, n):
-    s = rnd.choice(["Living", "Küche", "Büro", "Z", "", "Bed 1", "寝室", "Master", "x" * n])
+    s = rnd.choice(["Living", "Küche", "Büro", "Z", "", "Bed 1", "寝室", "Master", "x" * n, "UUU",
+                    "U" * n])
     while len(s.encode()) > n:
         s = s[:-1]
     return s
